@@ -400,6 +400,31 @@ def check_direct(ctx, detail):
                               detail, impl_err, pred_failed)
 
 
+def check_metadata_only(ctx, detail):
+    """a failed run: blob_to_hdf5 writes the metadata only and hdf5_to_blob
+    returns it (not modelled; implementation predicate only)"""
+    from cell_type_mapper.utils.output_utils import blob_to_hdf5, hdf5_to_blob
+    blob = detail['blob']
+    ctx.count('metadata_only')
+    ctx.case(None)
+    with pipeline.workdir(prefix='ctmverif_c15_') as d:
+        try:
+            blob_to_hdf5(copy.deepcopy(blob), d / 'out.h5')
+            back = hdf5_to_blob(d / 'out.h5')
+            raw = ou.read_h5_raw(d / 'out.h5', ou.StrTable())
+        except Exception as e:
+            ctx.violation('C15/h5/metadata-only/error/' + ou.classify_error(e),
+                          'blob without results cannot be written / read: %r'
+                          % e, detail)
+            return
+    # without a taxonomy the results are not written at all
+    want = {k: v for k, v in blob.items() if k != 'results'}
+    if json.dumps(back, sort_keys=True) != json.dumps(want, sort_keys=True) \
+            or raw['keys'] != ['metadata']:
+        ctx.violation('C15/h5/metadata-only/differs',
+                      'a blob without results is not reproduced', detail)
+
+
 # ---------------------------------------------------------------------------
 # fmt4
 # ---------------------------------------------------------------------------
@@ -760,6 +785,10 @@ def run(ctx):
         flatten = rng.choice([None, False, True])
         check_direct(ctx, {'kind': 'direct', 'label': 'valid', 'blob': blob,
                            'iters': iters, 'flatten': flatten})
+        if i % 25 == 0:
+            gone = rng.choice(['results', 'taxonomy_tree'])
+            part = {k: v for k, v in blob.items() if k != gone}
+            check_metadata_only(ctx, {'kind': 'metadata_only', 'blob': part})
         if i % 3 == 0:
             for label, mb in ou.malformed_blobs(rng, blob):
                 check_direct(ctx, {'kind': 'direct', 'label': label,
@@ -800,6 +829,8 @@ def replay(ctx, data, from_corpus=False):
                                           'model')})
     elif kind == 'fmt4':
         check_fmt4(ctx, d['xs'])
+    elif kind == 'metadata_only':
+        check_metadata_only(ctx, d)
     elif kind == 'reorder':
         check_reorder(ctx, d)
     elif not from_corpus:
